@@ -705,6 +705,9 @@ func (c *Ctx) applyTableOverrides(from int) {
 			o.Key == "R5:M6", o.Key == "R5:M7", o.Key == "R5:M8", o.Key == "R5:M13",
 			o.Key == "R17:V1", o.Key == "R17:V2", o.Key == "R17:V3", o.Key == "R17:V4", o.Key == "R17:V5", o.Key == "R17:V7", o.Key == "R17:V9":
 			table = c.tableCovered["table:run"]
+		case strings.HasPrefix(o.Key, "R9a:Gather.inputs[1]:") || strings.HasPrefix(o.Key, "R9b:Gather.inputs[1]:"):
+			// negative spellings and indices out of range are among the Gather table's cells
+			table = c.tableCovered["table:gather"]
 		case strings.HasPrefix(o.Key, "R9a:"), strings.HasPrefix(o.Key, "R9b:"):
 			// R9a:<label>:<kind>@<fn> — the finite table of that axis source
 			rest := o.Key[4:]
@@ -760,6 +763,9 @@ func (c *Ctx) applyTableOverrides(from int) {
 			table = c.tableCovered["table:prelu"]
 		case o.Key == "R7:unary:PRelu":
 			table = c.tableCovered["table:prelu"]
+		case o.Key == "R20:argmax:int64":
+			// every cell of the ArgMax table checks that the result holds int64 positions
+			table = c.tableCovered["table:reduction:ArgMax"]
 		case o.Key == "R16:shape:Gemm":
 			table = c.tableCovered["table:gemm"]
 		case o.Key == "R16:shape:Scaler":
